@@ -18,6 +18,7 @@ LEVEL_TEXT = ("Table agreement and protocol analysis on the MIR of functions.rs:
               "the format string and copies literal characters unchanged.")
 LEVEL_NOTE = ("Not decided: the computed values (formatting text, regex replacement results, that node facts equal tree-sitter's).")
 LEVEL_TEXT += (' Also: (CORE) each stdlib function computes its result with the documented primitive (regex replace_all, slice join, tree-sitter node accessors, checked arithmetic ...) applied to its own parameters in declaration order; (V) the Value coercions accept exactly the named variant and fail with ExpectedX otherwise; (E2.d) no failure inside a stdlib function is dropped.')
+LEVEL_TEXT += (' A variadic loop ends when `param()` itself fails — not when a coercion chained onto it fails.')
 
 VARIADIC = {"and", "or", "plus", "concat"}
 DOC_ARITY = {"none": 0, "one": 1, "two": 2, "a list value": 1, "list values": "variadic", "zero or more": "variadic"}
